@@ -260,6 +260,17 @@ def _run_built(ctx: RunContext, built: dict, configs: list[dict], variables=None
                     objs["nonlinear_constraints"] = NonlinearConstraintsConfig(**cfg["nonlinear_constraints"])
                 if cfg.get("gradient"):
                     objs["gradient"] = GradientConfig(**cfg["gradient"])
+                # ... and likewise every other part of the configuration that has a class of its own
+                from ropt.config import enopt as _enopt
+
+                for field, cls_name in (("linear_constraints", "LinearConstraintsConfig"), ("objectives", "ObjectiveFunctionsConfig"),
+                                        ("realizations", "RealizationsConfig")):
+                    if cfg.get(field) and hasattr(_enopt, cls_name):
+                        objs[field] = getattr(_enopt, cls_name)(**cfg[field])
+                for field, cls_name in (("samplers", "SamplerConfig"), ("realization_filters", "RealizationFilterConfig"),
+                                        ("function_estimators", "FunctionEstimatorConfig")):
+                    if cfg.get(field) and hasattr(_enopt, cls_name):
+                        objs[field] = [getattr(_enopt, cls_name)(**item) for item in cfg[field]]
                 store[sspec["cfg"]] = objs
             cfg.update(store[sspec["cfg"]])
         kwargs: dict[str, Any] = {"config": cfg}
